@@ -16,6 +16,7 @@ import (
 	"strings"
 
 	"cosmossdk.io/core/event"
+	errorsmod "cosmossdk.io/errors"
 	corestore "cosmossdk.io/core/store"
 	"cosmossdk.io/log"
 	sdkmath "cosmossdk.io/math"
@@ -26,6 +27,7 @@ import (
 	"github.com/circlefin/noble-fiattokenfactory/x/blockibc"
 	"github.com/cosmos/cosmos-sdk/runtime"
 	sdk "github.com/cosmos/cosmos-sdk/types"
+	sdkerrors "github.com/cosmos/cosmos-sdk/types/errors"
 	authcodec "github.com/cosmos/cosmos-sdk/x/auth/codec"
 	bankkeeper "github.com/cosmos/cosmos-sdk/x/bank/keeper"
 	banktypes "github.com/cosmos/cosmos-sdk/x/bank/types"
@@ -91,6 +93,23 @@ func (p *Plan) hit(site string, req any) int {
 
 var errInjected = errors.New("injected downstream failure")
 
+// injectedErrClasses: the error value an injected failure carries. Code may branch on the class of a downstream
+// error (errors.Is), so a fault is a pair (call, class): a plain error and the registered classes real modules return.
+var injectedErrClasses = []error{
+	errInjected,
+	errorsmod.Wrap(sdkerrors.ErrInsufficientFunds, "injected downstream failure"),
+	errorsmod.Wrap(sdkerrors.ErrUnauthorized, "injected downstream failure"),
+	errorsmod.Wrap(sdkmath.ErrIntOverflow, "injected downstream failure"),
+	errorsmod.Wrap(sdkerrors.ErrInvalidRequest, "injected downstream failure"),
+}
+var injectedErrNames = []string{"plain", "insufficient-funds", "unauthorized", "int-overflow", "invalid-request"}
+
+// errClass selects the class for the plan in force (one worker process runs one simulation at a time).
+var errClass int
+
+func injErr() error { return injectedErrClasses[errClass%len(injectedErrClasses)] }
+
+
 type ModeB struct {
 	Plan   *Plan
 	K      *orbiterkeeper.Keeper
@@ -99,6 +118,9 @@ type ModeB struct {
 }
 
 func (b *ModeB) Reset(fail map[int]int) {
+	if fail == nil {
+		errClass = 0
+	}
 	b.Plan.Fail, b.Plan.Calls, b.Plan.Fired = fail, nil, nil
 }
 
@@ -130,14 +152,14 @@ func storeSite(op string, key []byte) string {
 
 func (s fStore) Get(key []byte) ([]byte, error) {
 	if s.p.Store && s.p.hit(storeSite("Get", key), nil) != faultNone {
-		return nil, errInjected
+		return nil, injErr()
 	}
 	return s.inner.Get(key)
 }
 
 func (s fStore) Has(key []byte) (bool, error) {
 	if s.p.Store && s.p.hit(storeSite("Has", key), nil) != faultNone {
-		return false, errInjected
+		return false, injErr()
 	}
 	return s.inner.Has(key)
 }
@@ -148,11 +170,11 @@ func (s fStore) Set(key, value []byte) error {
 		m = s.p.hit(storeSite("Set", key), nil)
 	}
 	if m == faultBefore {
-		return errInjected
+		return injErr()
 	}
 	err := s.inner.Set(key, value)
 	if m == faultAfter {
-		return errInjected // the write reached the store, its acknowledgement was lost
+		return injErr() // the write reached the store, its acknowledgement was lost
 	}
 	return err
 }
@@ -163,25 +185,25 @@ func (s fStore) Delete(key []byte) error {
 		m = s.p.hit(storeSite("Delete", key), nil)
 	}
 	if m == faultBefore {
-		return errInjected
+		return injErr()
 	}
 	err := s.inner.Delete(key)
 	if m == faultAfter {
-		return errInjected
+		return injErr()
 	}
 	return err
 }
 
 func (s fStore) Iterator(start, end []byte) (corestore.Iterator, error) {
 	if s.p.Store && s.p.hit(storeSite("Iterator", start), nil) != faultNone {
-		return nil, errInjected
+		return nil, injErr()
 	}
 	return s.inner.Iterator(start, end)
 }
 
 func (s fStore) ReverseIterator(start, end []byte) (corestore.Iterator, error) {
 	if s.p.Store && s.p.hit(storeSite("ReverseIterator", start), nil) != faultNone {
-		return nil, errInjected
+		return nil, injErr()
 	}
 	return s.inner.ReverseIterator(start, end)
 }
@@ -194,10 +216,10 @@ type fBank struct {
 func (b fBank) SendCoins(ctx context.Context, from, to sdk.AccAddress, amt sdk.Coins) error {
 	switch b.p.hit("bank.SendCoins", fmt.Sprintf("%s->%s %s", from, to, amt)) {
 	case faultBefore:
-		return errInjected
+		return injErr()
 	case faultAfter:
 		_ = b.Keeper.SendCoins(ctx, from, to, amt)
-		return errInjected
+		return injErr()
 	}
 	return b.Keeper.SendCoins(ctx, from, to, amt)
 }
@@ -205,10 +227,10 @@ func (b fBank) SendCoins(ctx context.Context, from, to sdk.AccAddress, amt sdk.C
 func (b fBank) SendCoinsFromModuleToModule(ctx context.Context, s, r string, amt sdk.Coins) error {
 	switch b.p.hit("bank.SendCoinsFromModuleToModule", fmt.Sprintf("%s->%s %s", s, r, amt)) {
 	case faultBefore:
-		return errInjected
+		return injErr()
 	case faultAfter:
 		_ = b.Keeper.SendCoinsFromModuleToModule(ctx, s, r, amt)
-		return errInjected
+		return injErr()
 	}
 	return b.Keeper.SendCoinsFromModuleToModule(ctx, s, r, amt)
 }
@@ -227,10 +249,10 @@ func (c fCCTP) DepositForBurn(ctx context.Context, m *cctptypes.MsgDepositForBur
 	cp := *m
 	switch c.p.hit("cctp.DepositForBurn", cp) {
 	case faultBefore:
-		return nil, errInjected
+		return nil, injErr()
 	case faultAfter:
 		_, _ = c.inner.DepositForBurn(ctx, m)
-		return nil, errInjected
+		return nil, injErr()
 	}
 	return c.inner.DepositForBurn(ctx, m)
 }
@@ -239,10 +261,10 @@ func (c fCCTP) DepositForBurnWithCaller(ctx context.Context, m *cctptypes.MsgDep
 	cp := *m
 	switch c.p.hit("cctp.DepositForBurnWithCaller", cp) {
 	case faultBefore:
-		return nil, errInjected
+		return nil, injErr()
 	case faultAfter:
 		_, _ = c.inner.DepositForBurnWithCaller(ctx, m)
-		return nil, errInjected
+		return nil, injErr()
 	}
 	return c.inner.DepositForBurnWithCaller(ctx, m)
 }
@@ -251,10 +273,10 @@ func (c fCCTP) ReplaceDepositForBurn(ctx context.Context, m *cctptypes.MsgReplac
 	cp := *m
 	switch c.p.hit("cctp.ReplaceDepositForBurn", cp) {
 	case faultBefore:
-		return nil, errInjected
+		return nil, injErr()
 	case faultAfter:
 		_, _ = c.inner.ReplaceDepositForBurn(ctx, m)
-		return nil, errInjected
+		return nil, injErr()
 	}
 	return c.inner.ReplaceDepositForBurn(ctx, m)
 }
@@ -268,10 +290,10 @@ func (h fHyp) RemoteTransfer(ctx context.Context, m *warptypes.MsgRemoteTransfer
 	cp := *m
 	switch h.p.hit("hyperlane.RemoteTransfer", cp) {
 	case faultBefore:
-		return nil, errInjected
+		return nil, injErr()
 	case faultAfter:
 		_, _ = h.inner.RemoteTransfer(ctx, m)
-		return nil, errInjected
+		return nil, injErr()
 	}
 	return h.inner.RemoteTransfer(ctx, m)
 }
@@ -280,7 +302,7 @@ func (h fHyp) Token(ctx context.Context, q *warptypes.QueryTokenRequest) (*warpt
 	cp := *q
 	switch h.p.hit("hyperlane.Token", cp) {
 	case faultBefore, faultAfter:
-		return nil, errInjected
+		return nil, injErr()
 	}
 	return h.inner.Token(ctx, q)
 }
@@ -294,10 +316,10 @@ func (i fInternal) Send(ctx context.Context, m *banktypes.MsgSend) (*banktypes.M
 	cp := *m
 	switch i.p.hit("internal.Send", cp) {
 	case faultBefore:
-		return nil, errInjected
+		return nil, injErr()
 	case faultAfter:
 		_, _ = i.inner.Send(ctx, m)
-		return nil, errInjected
+		return nil, injErr()
 	}
 	return i.inner.Send(ctx, m)
 }
@@ -323,10 +345,10 @@ func (m fEM) Emit(ctx context.Context, ev protoiface.MessageV1) error {
 	}
 	switch m.p.hit("event.Emit("+name+")", nil) {
 	case faultBefore:
-		return errInjected
+		return injErr()
 	case faultAfter:
 		_ = m.Manager.Emit(ctx, ev)
-		return errInjected
+		return injErr()
 	}
 	return m.Manager.Emit(ctx, ev)
 }
@@ -340,10 +362,10 @@ type fApp struct {
 func (a fApp) OnRecvPacket(ctx sdk.Context, packet channeltypes.Packet, relayer sdk.AccAddress) ibcexported.Acknowledgement {
 	switch a.p.hit("ics20.OnRecvPacket", nil) {
 	case faultBefore:
-		return channeltypes.NewErrorAcknowledgement(errInjected)
+		return channeltypes.NewErrorAcknowledgement(injErr())
 	case faultAfter:
 		_ = a.IBCModule.OnRecvPacket(ctx, packet, relayer)
-		return channeltypes.NewErrorAcknowledgement(errInjected)
+		return channeltypes.NewErrorAcknowledgement(injErr())
 	}
 	return a.IBCModule.OnRecvPacket(ctx, packet, relayer)
 }
